@@ -8,7 +8,7 @@ TI_SHORTS = ["F", "RHEL", "sw", "Fedora", "x1", ""]
 TI_VERSIONS = ["20", "7.0", "7.1", "10.0.1", "Rawhide", "eln"]
 TOP_IDS = ["Server", "Client", "Workstation", "BaseOS", "AppStream", "Fedora", "Tools", "RT", "WorkStation", "server"]      # two of them are child ids as well, two differ from another one only in letter case
 CHILD_IDS = ["optional", "HighAvailability", "Tools", "RT", "SAP", "debug"]
-PLATFORMS = ["xen", "ppc64le", "uefi", "Xen-PV"]
+PLATFORMS = ["xen", "ppc64le", "uefi", "Xen-PV", "xen pv"]      # (a blank INSIDE a name is part of the name)
 IMAGE_NAMES = ["boot.iso", "kernel", "initrd", "Kernel", "efiboot.img", "upgrade", "boot iso", "BOOT.ISO", "x.y-z_0", "initrd.IMG"]
 PATHS = ["Packages", ".", "repo", "src repo", "images/boot.iso", "a/b/c", "ünï/côde", "x" * 40, "Server/os",
          "a=b", "c:d", "semi;colon", "has # hash", "[bracket]", "with = and : both", "back\\slash", "UPPER/lower",
@@ -169,7 +169,10 @@ def top_keys(K):
 def valid_mutation(K, rng, slot=0):
     sl = {"slot": slot} if slot else {}
     r = rng.random()
-    if r < 0.22:
+    if r < 0.12:
+        # an optional part of the description is taken back as a whole
+        o = {"op": "ti_clear", "what": pick(rng, ["stage2", "media", "checksums"]), "inplace": rng.random() < 0.5}
+    elif r < 0.22:
         # the same object is re-used for another architecture (one .treeinfo per arch)
         o = {"op": "ti_set", "sec": "tree", "field": "arch", "value": pick(rng, [a for a in pools.ARCHES if a != K["tree"]["arch"]])}
     elif r < 0.3:
@@ -294,10 +297,12 @@ def poison_ops(site, slot=0):
 # ---- discinfo ---------------------------------------------------------------------------------------
 def gen_discinfo(rng):
     ts = pick(rng, [1410855216.123456, 1.0, 123456.75, -5.5, 1e-07, 1.7976931348623157e+308, 1234567890.0, 0.1 + 0.2])
-    return {"timestamp": ts, "description": pick(rng, ["Fedora 20", "Red Hat Enterprise Linux 7.0", "ünï côde", "a", "it's \"quoted\" inside", "x" * 80,
-                                      "#1 Linux 20", "; semi first", "ALL", "1,2,3", "0.5", "[general]", "x = y",
-                                      # characters str.splitlines() breaks on but a text file does not end a line with
-                                      "ver\x0btical", "form\x0cfeed", "line\u2028sep", "next\x85line", "fs\x1cgs\x1d", "tab\tinside"]),
+    desc = pick(rng, ["Fedora 20", "Red Hat Enterprise Linux 7.0", "ünï côde", "a", "it's \"quoted\" inside", "x" * 80,
+                      "#1 Linux 20", "; semi first", "ALL", "1,2,3", "0.5", "[general]", "x = y", "tab\tinside"])
+    if rng.random() < 0.08:
+        # characters str.splitlines() breaks on but a text file does not end a line with (unspecified for writing: rare)
+        desc = pick(rng, ["ver\x0btical", "form\x0cfeed", "line\u2028sep", "next\x85line", "fs\x1cgs\x1d"])
+    return {"timestamp": ts, "description": desc,
             "arch": pick(rng, pools.ARCHES + ["src"]),
             "disc_numbers": ["ALL"] if rng.random() < 0.4 else (sorted(subset(rng, [1, 2, 3, 4, 10, 11], 1, 4)) if rng.random() < 0.7 else
                                                                    pick(rng, [[1, 1], [2, 1, 2], [3, 2, 1], [10, 9], [1, 2, 2, 3], [0], [-1, 1]]))}
